@@ -25,7 +25,8 @@ Targets == << F(<<L("", "T1", "")>>, <<>>, FALSE, FALSE),
               F(<<L("", "T2", ""), L("", "T3", "")>>, <<L("", "T6", "")>>, TRUE, FALSE),     \* a run-once TARGET (unique signature)
               \* a second run-once target: its parameter can be supplied directly (input 4) or derived through c1, c2 - a call
               \* that succeeded (and was memoized) can be followed by one whose converter fails or whose input is missing
-              F(<<L("", "T1", "")>>, <<L("b", "T6", "")>>, TRUE, FALSE) >>
+              \* (it returns nothing but its error: there are no outputs to memoize, the execution itself is what must not repeat)
+              F(<<L("z", "T1", "")>>, <<>>, TRUE, FALSE) >>
 Inputs == << L("", "T3", ""), L("", "T4", ""), L("a", "T5", ""), L("", "T1", "") >>
 Pools == { << F(<<L("", "T3", "")>>, <<L("", "T2", "")>>, TRUE, FALSE),                       \* c1: T3 -> T2, run once
               F(<<L("", "T2", "")>>, <<L("", "T1", "")>>, o2, f2),                            \* c2: T2 -> T1
